@@ -24,6 +24,9 @@ var solvers = []solverSpec{
 	{"cvc5", func(f string, t int) []string {
 		return []string{"cvc5", "--lang=smt2", fmt.Sprintf("--tlimit=%d", t*1000), "--produce-models", f}
 	}},
+	{"cvc5-enum", func(f string, t int) []string {
+		return []string{"cvc5", "--lang=smt2", fmt.Sprintf("--tlimit=%d", t*1000), "--produce-models", "--enum-inst", f}
+	}},
 }
 
 const smtHeader = `(define-fun godiv ((a Int) (b Int)) Int (ite (>= a 0) (ite (> b 0) (div a b) (- (div a (- b)))) (ite (> b 0) (- (div (- a) b)) (div (- a) (- b)))))
@@ -80,9 +83,11 @@ func (eng *Engine) buildQuery(o *Obligation) (string, []string) {
 	dts := eng.sorts.datatypeDecls(func(n string) bool { return allSyms[n] || allSyms["mk_"+n] || hasPrefixSym(allSyms, n+"_") })
 	var q strings.Builder
 	q.WriteString("(set-option :produce-models true)\n(set-logic ALL)\n")
-	q.WriteString(sortsTxt.String())
-	if !strings.Contains(sortsTxt.String(), "declare-sort Str") && (allSyms["Str"]) {
-		q.WriteString("(declare-sort Str 0)\n")
+	q.WriteString("(declare-sort Str 0)\n")
+	for _, ln := range strings.Split(sortsTxt.String(), "\n") {
+		if ln != "" && !strings.Contains(ln, "declare-sort Str ") {
+			q.WriteString(ln + "\n")
+		}
 	}
 	q.WriteString(dts)
 	q.WriteString(smtHeader)
